@@ -3,9 +3,11 @@
 # usage: run_seeded.sh [ids...]
 cd /verif
 ids="$@"; [ -z "$ids" ] && ids=$(ls seeded)
+touched=""
 for id in $ids; do
   prop=$(python3 -c "import json;print(json.load(open('seeded/$id/meta.json'))['breaks_property'])")
   if grep -q '"neutralised"' seeded/$id/meta.json; then echo "$id $prop: neutralised by a later repair (skipped)"; continue; fi
+  touched="$touched $prop"
   out=$(harness/try_mutant.sh seeded/$id/patch.diff $prop 2>&1 | grep -v KNOWN | grep -E "VIOLATION|exit|apply" | head -3 | tr '\n' ' ')
   case "$out" in
     *"does not apply"*) echo "$id $prop: patch no longer applies (the code it changed was repaired since)";;
@@ -13,4 +15,5 @@ for id in $ids; do
     *) echo "$id $prop: MISSED  $out";;
   esac
 done
-/venv/bin/python harness/check.py C16 >/dev/null 2>&1
+# the evidence files now describe runs against changed trees: rewrite them from the unchanged tree
+for p in $(echo $touched | tr ' ' '\n' | sort -u); do /venv/bin/python harness/check.py $p >/dev/null 2>&1; done
